@@ -90,10 +90,11 @@ package rm
 //@   ensures result != nil
 
 //@ func (*RMRemoting).BranchRegister
-//@   prop C05
+//@   prop C05 C02
 //@   modifies ghost.begin_sends, ghost.commit_sends, ghost.rollback_sends, ghost.other_sends, ghost.commit_acked, ghost.commit_refused, ghost.rollback_acked, ghost.rollback_refused, ghost.last_send_failed, ghost.commit_xid, ghost.rollback_xid, ghost.begin_xid
 //@   ensures one-request: ghost.other_sends == old(ghost.other_sends) + 1 && ghost.begin_sends == old(ghost.begin_sends) && ghost.commit_sends == old(ghost.commit_sends) && ghost.rollback_sends == old(ghost.rollback_sends)
 //@   ensures transport-failure-surfaces: ghost.last_send_failed ==> result1 != nil
 //@   ensures refusal-surfaces: called("SendSyncRequest#1") && callres("SendSyncRequest#1", 1) == nil && callres("SendSyncRequest#1", 0).(message.BranchRegisterResponse).ResultCode == message.ResultCodeFailed ==> result1 != nil
 //@   ensures branch-id-from-the-response: result1 == nil ==> called("SendSyncRequest#1") && result0 == callres("SendSyncRequest#1", 0).(message.BranchRegisterResponse).BranchId
+//@   nopanic
 //@   at call SendSyncRequest#1: assert request-describes-the-branch: isT(arg_msg, message.BranchRegisterRequest) && arg_msg.(message.BranchRegisterRequest).Xid == param.Xid && arg_msg.(message.BranchRegisterRequest).ResourceId == param.ResourceId && arg_msg.(message.BranchRegisterRequest).BranchType == param.BranchType && arg_msg.(message.BranchRegisterRequest).LockKey == param.LockKeys && string(arg_msg.(message.BranchRegisterRequest).ApplicationData) == param.ApplicationData
